@@ -1,5 +1,6 @@
 import DSV.Lemmas.StepWF
 import DSV.Lemmas.ConvergeRound
+import DSV.Props.C14Observe
 /-!
 # C14 — channel definitions converge to the agreed target in bounded rounds  (partial: side conditions named)
 
